@@ -240,7 +240,22 @@ def tlc_generate(d, name, base, consts, cfgbody, out_path, defaults=None, timeou
     n = 0
     seen_err = None
     with open(outp, errors="replace") as f, open(out_path, "a" if append else "w") as fo:
+        pending = None
         for line in f:
+            if pending is not None:                       # TLC wrapped the tuple over several lines
+                pending += " " + line.strip()
+                if not pending.endswith(">>"):
+                    continue
+                line = re.sub(r'^<<\s*"BEH",\s*', '<<"BEH", ', pending)
+                line = re.sub(r'\s*>>$', '>>', line)
+                pending = None
+            elif line.startswith('<< "BEH"') or line.rstrip() == '<<':
+                pending = line.strip()
+                if not pending.endswith(">>"):
+                    continue
+                line = re.sub(r'^<<\s*"BEH",\s*', '<<"BEH", ', pending)
+                line = re.sub(r'\s*>>$', '>>', line)
+                pending = None
             if line.startswith('<<"BEH", '):
                 body = line.strip()[len('<<"BEH", '):-2]
                 try:
@@ -291,9 +306,9 @@ def read_line(p, idx):
     return None
 
 
-APPLIES_RE = re.compile(r'<<"APPLIES", "([^"]+)", "([^"]*)">>')
-DRIFT_RE = re.compile(r'<<"DRIFT", "([^"]+)", "([^"]*)">>')
-KF_RE = re.compile(r'<<"KNOWN-FINDING", "([^"]+)", "([^"]+)", "([^"]*)">>')
+APPLIES_RE = re.compile(r'<<\s*"APPLIES",\s*"([^"]+)",\s*"([^"]*)"\s*>>')
+DRIFT_RE = re.compile(r'<<\s*"DRIFT",\s*"([^"]+)",\s*"([^"]*)"\s*>>')
+KF_RE = re.compile(r'<<\s*"KNOWN-FINDING",\s*"([^"]+)",\s*"([^"]+)",\s*"([^"]*)"\s*>>')
 B_RE = re.compile(r"^/\\ b = (\d+)\s*$")
 INV_RE = re.compile(r"Error: Invariant (\S+) is violated")
 
